@@ -346,7 +346,10 @@ def spec_scalar(P, arrays):
     np = _impl().np
     Q = dict(P)
     Q.update(arrays)
-    return float((spec_forward(Q) * np.array(P["up"], dtype=np.float64)).sum())
+    out = spec_forward(Q)
+    up = np.array(P["up"], dtype=np.float64)
+    m = np.isfinite(out)         # a max-pool window that lies in the padding entirely is constant -inf: it contributes no derivative
+    return float((out[m] * up[m]).sum())
 
 
 def fd_grads(P, names, eps):
